@@ -94,6 +94,22 @@ CHECKS = {
         "Trusted: index-level padding model (C02); all inputs share their broadcast dims.",
         "DESIGN.md 4/C11",
     ),
+    "C12": (
+        "Hypothesis scenarios executed in worker interpreters with different PYTHONHASHSEED + permuted face-table order; differential across seeds/orders",
+        "The harness owns the schedule-like variable (the interpreter's string-hash seed): every generated scenario is executed in "
+        "8 (quick) / 16 (thorough) interpreters with distinct seeds and again with the face table re-ordered; all answers must be "
+        "identical; mismatches are confirmed in fresh interpreters before being reported.",
+        "Trusted: persistent workers are stateless between scenarios (re-validated on mismatch). A k-name set has k! orders; 8 seeds miss a 2-order site with probability 2^-7 per scenario.",
+        "DESIGN.md 4/C12",
+    ),
+    "C13": (
+        "Hypothesis scenarios x hostile injective renamings (dictionary harvested from xgcm's string literals); metamorphic canonical-vs-renamed run",
+        "Metamorphic relation between two xgcm runs of the same scenario: canonical tokens vs an injective renaming built from single "
+        "letters, names embedding position words, case variants, mutual substrings and words harvested from the source (which is "
+        "how collisions with internal temporaries are reached).",
+        "Trusted: the canonical upper-case tokens are behaviour-neutral names.",
+        "DESIGN.md 4/C13",
+    ),
     "C14": (
         "Hypothesis-generated layouts rendered as COMODO / SGRID metadata vs the two documented tables + explicit-coords differential",
         "Generated-input search filling every cell of the COMODO table (5 positions x shift signs x n in {1,2,>=3}) and the SGRID "
